@@ -62,8 +62,18 @@ func (p *Project) WorkflowsDir() string {
 // Knows returns true when the project knows the given file. When a file is included in the
 // project's directory, the project knows the file.
 func (p *Project) Knows(path string) bool {
-	// TODO: strings.HasPrefix is not perfect to check file path
-	return strings.HasPrefix(absPath(path), p.root)
+	// Check the path at the boundary of path components. Otherwise a sibling directory whose name
+	// starts with the name of the root directory (e.g. /path/to/repo2 for /path/to/repo) is
+	// wrongly handled as a file in this project.
+	a := absPath(path)
+	if a == p.root {
+		return true
+	}
+	r := p.root
+	if !strings.HasSuffix(r, string(filepath.Separator)) {
+		r += string(filepath.Separator)
+	}
+	return strings.HasPrefix(a, r)
 }
 
 // Config returns config object of the GitHub project repository. The config file was read from
